@@ -210,7 +210,8 @@ def _mode_typed_positions_used_raw(f, node):
         changed = False
         for x in walk_shallow(f.node):
             if isinstance(x, ast.Assign) and len(x.targets) == 1 and isinstance(x.targets[0], ast.Name) and x.targets[0].id not in tainted \
-                    and not in_mode_switch(x) and any(isinstance(y, ast.Name) and y.id in tainted for y in ast.walk(x.value)):
+                    and not in_mode_switch(x) and not (isinstance(x.value, ast.IfExp) and parity.mode_test(x.value.test, FLAGS) is not None) \
+                    and any(isinstance(y, ast.Name) and y.id in tainted for y in ast.walk(x.value)):
                 tainted.add(x.targets[0].id)
                 changed = True
     bad = []
@@ -226,10 +227,39 @@ def _mode_typed_positions_used_raw(f, node):
     return bad
 
 
+def _table_index(node):
+    """the Subscript a mode test selects a row of: `T[mode == 'min']`, `T[bool(mode == 'min')]`, `T['min' if mode == 'min' else 'max']`"""
+    x = node
+    for _ in range(3):
+        p_ = getattr(x, "_parent", None)
+        if isinstance(p_, ast.Call) and isinstance(p_.func, ast.Name) and p_.func.id == "bool" and len(p_.args) == 1:
+            x = p_
+        elif isinstance(p_, ast.IfExp) and p_.test is x and isinstance(p_.body, ast.Constant) and isinstance(p_.orelse, ast.Constant):
+            x = p_
+        elif isinstance(p_, ast.Subscript) and p_.slice is x:
+            return p_
+        else:
+            return None
+    return None
+
+
 def classify(ctx, f, node):
     """Returns (shape, ok, detail) for a mode-dependent construct; shape None = not understood."""
     par = getattr(node, "_parent", None)
     m = parity.mode_test(node, FLAGS)
+    tab = _table_index(node)
+    if tab is not None:
+        # a row of a table keyed by the mode: the function with the mode fixed to 'min' and to 'max' must be mirror images
+        top = f
+        while top.parent is not None:
+            top = top.parent
+        consts = dict(f.module.constants)
+        bmin = parity.specialise(top.node, "min", FLAGS, consts)
+        bmax = parity.specialise(top.node, "max", FLAGS, consts)
+        if U(ast.Module(body=bmin, type_ignores=[])) == U(ast.Module(body=bmax, type_ignores=[])):
+            return "table", False, f"{U(tab)[:60]}: both rows give the same code, the mode has no effect (nothing is mirrored)"
+        ok = parity.dual_bodies(bmin, bmax, lambda a, b: _dual_arms(a, b, f))
+        return "table", ok, f"{U(tab)[:60]}: the function specialised to 'min' and to 'max' are" + ("" if ok else " not") + " mirror images"
     # definition of a flag
     if isinstance(par, ast.Assign) and par.value is node:
         tgt = U(par.targets[0])
@@ -347,11 +377,61 @@ def sites(ctx, files):
     return out
 
 
+def _dual_run(f):
+    """decides whether two runs of statements (the same place of a function specialised to 'min' and to 'max') are mirror images, by
+    any of the recognised pairings"""
+    def q_pair(a, b):
+        if not (len(a) == 1 and len(b) == 1 and isinstance(a[0], ast.Assign) and isinstance(b[0], ast.Assign) and U(a[0].targets[0]) == U(b[0].targets[0])):
+            return False
+        x, y = U(a[0].value).replace(" ", ""), U(b[0].value).replace(" ", "")
+        return y == f"1-{x}" or x == f"1-{y}"
+
+    def sign_pair(a, b):
+        if not (len(a) == 1 and len(b) == 1 and isinstance(a[0], ast.Assign) and isinstance(b[0], ast.Assign) and U(a[0].targets[0]) == U(b[0].targets[0])):
+            return False
+        va, vb = a[0].value, b[0].value
+        return isinstance(va, ast.Constant) and isinstance(vb, ast.Constant) and isinstance(va.value, (int, float)) and \
+            isinstance(vb.value, (int, float)) and va.value == -vb.value and va.value != 0
+
+    def dec(a, b):
+        if _dual_arms(a, b, f) or _window_dual(a, b) or _range_reversal(a, b) or q_pair(a, b) or sign_pair(a, b):
+            return True
+        try:
+            return _neg_consts_equal(a[0] if len(a) == 1 else ast.Module(body=a, type_ignores=[]), b[0] if len(b) == 1 else ast.Module(body=b, type_ignores=[]))
+        except Exception:
+            return False
+    return dec
+
+
+_SPEC = {}
+
+
+def _mirror_when_specialised(f):
+    """the function containing f's site, with the mode fixed to 'min' and to 'max', gives mirror images (None: the two are identical)"""
+    top = f
+    while top.parent is not None:
+        top = top.parent
+    if top.qualname not in _SPEC:
+        consts = dict(f.module.constants)
+        bmin = parity.specialise(top.node, "min", FLAGS, consts)
+        bmax = parity.specialise(top.node, "max", FLAGS, consts)
+        if U(ast.Module(body=bmin, type_ignores=[])) == U(ast.Module(body=bmax, type_ignores=[])):
+            _SPEC[top.qualname] = None
+        else:
+            _SPEC[top.qualname] = parity.dual_bodies(bmin, bmax, _dual_run(f))
+    return _SPEC[top.qualname]
+
+
 def run(ctx, rep, tier="quick"):
     n_sign = 0
     per_func = {}
+    _SPEC.clear()
     for f, node in sites(ctx, FILES):
         shape, ok, detail = classify(ctx, f, node)
+        if (shape is None or (not ok and shape in ("dual-arms", "q/1-q", "window-dual", "SIGN"))) and _mirror_when_specialised(f):
+            # the construct is written in a way the shape table does not know (a conditional expression where it knows the
+            # statement, two switches where it knows one, ...): the function as a whole, with the mode fixed either way, decides
+            shape, ok, detail = "specialised", True, "the function specialised to 'min' and to 'max' are mirror images"
         idx = per_func.setdefault(f.short, 0)
         per_func[f.short] = idx + 1
         construct = f"{f.short}#{idx}" if idx else f.short
